@@ -350,3 +350,7 @@ async def coro_rebinding(key):
     key = str(key)
     await asyncio.sleep(0)
     return key
+
+
+def ann_newtype_none_default(a: UserId = None, b=None):  # noqa: RUF013
+    return a
